@@ -110,6 +110,14 @@ fn fv(v: &FieldValue, st: &mut JStats) -> J {
             c("unknown");
             tag("Unknown", bytes(b))
         }
+        // a value kind this harness does not know (added by a later version of the library): no
+        // independent expectation exists, so the library's own serialization is taken as is - what
+        // matters is that the harness still builds and every other value stays judged
+        #[allow(unreachable_patterns)]
+        other => {
+            c("other");
+            serde_json::to_string(other).ok().and_then(|t| parse(&t).ok()).unwrap_or(J::Null)
+        }
     }
 }
 
@@ -301,6 +309,8 @@ pub fn expected(p: &NetflowPacket, st: &mut JStats) -> J {
                 NetflowParseError::Partial(p) => tag("Partial", obj(vec![("version", n(p.version)), ("remaining", bytes(&p.remaining)), ("error", J::Str(p.error.clone()))])),
                 NetflowParseError::UnallowedVersion(v) => tag("UnallowedVersion", n(v)),
                 NetflowParseError::UnknownVersion(b) => tag("UnknownVersion", bytes(b)),
+                #[allow(unreachable_patterns)]
+                other => serde_json::to_string(other).ok().and_then(|t| parse(&t).ok()).unwrap_or(J::Null),
             };
             tag("Error", obj(vec![("error", err), ("remaining", bytes(&e.remaining))]))
         }
